@@ -175,6 +175,13 @@ class C05(Check):
                 files.append({"path": "pyproject.toml", "raw": {"t": '[project]\nname = "x"\ndependencies = [\n    "requests",\n]\n'}})
         inc = gen_patterns(rng, pys, rng.choice([0, 0, 1, 2, 4]))
         exc = gen_patterns(rng, pys, rng.choice([0, 0, 1, 2, 4]))
+        r = rng.random()
+        if r < 0.06:
+            inc = [""] * rng.randint(1, 2)  # `--path-include ""` / `","`: a list that matches nothing, not "use the defaults"
+        elif r < 0.12:
+            exc = [""] * rng.randint(1, 2)  # replaces the default excludes by a list that excludes nothing
+        elif r < 0.18 and inc:
+            inc = inc + [""]  # a trailing comma
         return {"kind": mode, "mode": mode, "include": cids, "files": files, "symlinks": symlinks, "outside": outside,
                 "path_include": inc, "path_exclude": exc, "sched": G.rand_sched(rng, len(files)), "workers": rng.choice([None, 2, 4]),
                 "enum_seed": rng.choice([None, rng.randrange(100)])}
